@@ -132,6 +132,14 @@ def cancelsOf : List Ev → List Nat
 def allPillsCancelled (batches : List (List Msg)) (tr : List Ev) : Bool :=
   (pillsOf batches.flatten).all fun p => (cancelsOf tr).count p.1 = 1
 
+/-! ### C02 (obligation on process.go): the inbox is never re-opened after it was stopped -/
+
+/-- the inbox of a process is opened at most once in its life (restarts find it running and their
+    `inbox.Start` is a no-op): so there is never a successful `inbox.Start` after an `inbox.Stop` of an
+    open inbox — the hypothesis `restartedAfterStop = false` of the inbox protocol theorems
+    (C02.mutex, C01.conservation). -/
+def noReopen (tr : List Ev) : Bool := tr.count (.inboxStart true) ≤ 1
+
 /-! ### C13: every delivery goes through the whole middleware chain -/
 
 def allWrapped (mwLen : Nat) : List Ev → Bool
